@@ -87,6 +87,18 @@ CLAIMS['C07'] = ('Bounded symbolic model checking of metamorphic relations: the 
 CLAIMS['C11'] = ('Bounded symbolic model checking of the real FFTPSF / FFTMTF / GeometricMTF code on the smallest grid with exact twiddle factors (pupil sampling 4, grid 4): symbolic wavefront errors (any size) and intensities; pupil = (I/mean I) exp(i 2 pi W) inside the unit disk, PSF = 100 |DFT|^2 / unaberrated peak at all 16 pixels, >= 0, total energy independent of W, Strehl = central value / 100 <= 1 (pairwise Cauchy-Schwarz lemmas + linear combination, each link a solver query), unaberrated peak exactly 100; '
     'MTF slices = |DFT(PSF)| normalised, start at one, within [0,1] for an arbitrary non-negative PSF; working F-number = 1/(2|u\'|) of the paraxial marginal ray on real singlets (infinite / finite object, stop at either surface), PSF pixel, MTF frequency step = 1/(grid x pixel), cut-off of both MTF classes.',
     'NOT decided (need realistic sampling, outside a solver encoding): MTF below the diffraction limit and its agreement with (2/pi)(phi - cos phi sin phi), the geometric MTF histogram transform, samplings 16-256 / grids 64-2048 (the code does not branch on the sizes; the DFT itself is numpy.fft, modelled exactly for N = 4), zero padding (grid > sampling); working F-number for a real inverted image in air')
+# sentences added with the fourth generation of seeded changes
+EXTRA = {
+    'C05': ' Quick tier also: a pinned one-parameter lens whose entrance pupil lies in front of the launch plane (stop behind the rear focus of the front surface), the same lens after a trace / set_index / trace history, and with a finite object and angular fields.',
+    'C06': ' FFT PSF of a perfect wavefront (zero error at every ray, arbitrary positive ray intensities, 4 x 4 and 3 x 3 grids): Strehl ratio exactly one, peak exactly 100.',
+    'C07': ' The rescaled aperture also clips a ray at an arbitrary point exactly like the aperture of the scaled lens.',
+    'C08': ' The longitudinal = transverse / (- final marginal slope) identities and every accessor / operand also for a finite object.',
+    'C10': ' The stubbed solver carries its call contract as an obligation: the library must ask for the plain least-squares minimiser (linear loss, no finite bounds, N unknowns).',
+    'C11': ' FFTPSF.view() (window, interpolation and matplotlib stubbed) leaves every pixel of the stored PSF and the Strehl ratio unchanged.',
+    'C15': ' The compensating optimisation runs in every trial, also when the sampled perturbation equals the nominal value.',
+}
+for _k, _v in EXTRA.items():
+    CLAIMS[_k] = (CLAIMS[_k][0] + _v, CLAIMS[_k][1])
 NOT_YET = 'check not built yet in this round (work in progress; see DESIGN.md section 6 for the plan)'
 
 props = [json.loads(l) for l in open(os.path.join(ROOT, 'properties.jsonl'))]
